@@ -315,6 +315,14 @@ func (g gate) Run(t *task.Task) error {
 		x.mu.Unlock()
 		return errors.New("cancelled")
 	}
+	if s := x.all[t.Name]; s != nil && s.spec.Cond && s.spec.Outcome != oCondFalse && x.condDir != "" && x.strat.CancelKind != "cond" {
+		// the stage has been started because its condition held; from now on the condition command answers
+		// "false" - what it says while (or after) the stage runs must not matter any more
+		lp := filepath.Join(x.condDir, strings.ReplaceAll(s.full, "/", "_"))
+		if os.Symlink("/bin/false", lp+".flip") == nil {
+			os.Rename(lp+".flip", lp)
+		}
+	}
 	p := &parked{ch: make(chan error, 1)}
 	x.parked[t.Name] = p
 	x.lastChange = x.ticksTotal
